@@ -3,6 +3,7 @@ package rag
 import (
 	"fmt"
 	"strings"
+	"unicode"
 
 	"github.com/tsawler/tabula/model"
 )
@@ -314,7 +315,9 @@ func (dc *DocumentChunker) createListChunk(list *model.List, docTitle string, se
 			sb.WriteString(fmt.Sprintf("- %s\n", item.Text))
 		}
 	}
-	text := strings.TrimSpace(sb.String())
+	// Drop trailing white space only: the leading spaces are the indentation of
+	// the first item when the list starts with a nested one.
+	text := strings.TrimRightFunc(sb.String(), unicode.IsSpace)
 
 	sectionTitle := ""
 	if len(sectionPath) > 0 {
